@@ -1,8 +1,8 @@
 /-
   The generator serve loop (src/generators/serve.rs).
 
-    * a live `<name>.spawn` whose (context, name) is not in the table and that has content is
-      accepted: the task enters the table and one lifecycle starts; any other `.spawn` yields
+    * a live `<name>.spawn` whose (context, name) is not in the table, that has content and whose
+      expression parses is accepted: the task enters the table and one lifecycle starts; any other `.spawn` yields
       one `<name>.spawn.error` naming it
     * a lifecycle: `<name>.start`, one `<name>.recv` per string the pipeline produces (in order,
       the string as content), `<name>.stop` - all with meta.source_id = the spawn's id, in the
@@ -11,8 +11,8 @@
     * a live `<name>.stop` of a task in the table starts the next lifecycle (a second later)
     * start-up: the last `.spawn` / `.spawn.error` per (context, name) is kept; those that are
       spawns are started
-  The pipeline is a parameter: `produce : GTask → List String → List String` (input chunks to
-  output strings).
+  The pipeline is a parameter: a lifecycle is given the list of strings it produced (values
+  that are not strings produce nothing).
 -/
 import XsModel.Command
 namespace Xs.Serve
@@ -78,9 +78,9 @@ inductive GAct where
 
 def gtblHas (tbl : List GTask) (k : Key) : Option GTask := tbl.find? (fun t => (t.ctx, t.name) = k)
 
-/-- one live frame of the loop's subscription.  `hasContent f` = the frame carries a hash,
-    `duplexOf f` = its meta says duplex. -/
-def genStep (duplexOf : SFrame → Bool) (tbl : List GTask) (f : SFrame) : List GTask × Option GAct :=
+/-- one live frame of the loop's subscription.  `duplexOf f` = its meta says duplex;
+    `parses f` = its expression parses (nushell's parser is a parameter). -/
+def genStep (duplexOf parses : SFrame → Bool) (tbl : List GTask) (f : SFrame) : List GTask × Option GAct :=
   match gclassify f.topic with
   | some (name, .spawn) =>
     match gtblHas tbl (f.ctx, name) with
@@ -89,19 +89,21 @@ def genStep (duplexOf : SFrame → Bool) (tbl : List GTask) (f : SFrame) : List 
       match f.content with
       | none => (tbl, some (.reject (spawnError name f "Missing hash")))
       | some _ =>
-        let t : GTask := { id := f.id, ctx := f.ctx, name := name, duplex := duplexOf f }
-        (tbl ++ [t], some (.start t))
+        if parses f then
+          let t : GTask := { id := f.id, ctx := f.ctx, name := name, duplex := duplexOf f }
+          (tbl ++ [t], some (.start t))
+        else (tbl, some (.reject (spawnError name f "Parse error")))
   | some (name, .stop) =>
     match gtblHas tbl (f.ctx, name) with
     | some t => (tbl, some (.start t))
     | none => (tbl, none)
   | _ => (tbl, none)
 
-def genRun (duplexOf : SFrame → Bool) : List GTask → List SFrame → List GTask × List GAct
+def genRun (duplexOf parses : SFrame → Bool) : List GTask → List SFrame → List GTask × List GAct
   | tbl, [] => (tbl, [])
   | tbl, f :: rest =>
-    let (t1, a) := genStep duplexOf tbl f
-    let (t2, more) := genRun duplexOf t1 rest
+    let (t1, a) := genStep duplexOf parses tbl f
+    let (t2, more) := genRun duplexOf parses t1 rest
     (t2, a.toList ++ more)
 
 structure GEntry where
